@@ -525,4 +525,131 @@ unsigned long g_rp_pushed, g_rp_reserved;
   __CPROVER_ensures((!g_error && PARITY_OK(self, segment_num))                                                         \
                     ==> (*ring2 - *ring1 == RDMAX(self, segment_num) && *ring1 + *ring2 == SPEC_RPR(self, segment_num, axial_pos_num)))
 
+
+/* ================= get_all_det_pos_pairs_for_bin / get_num_det_pos_pairs_for_bin ================= */
+/* the ring-pair list of the bin's (segment, axial position): abstract sequence of g_nrp pairs; element g_j is (g_jfirst,g_jsecond) */
+int g_nrp, g_j, g_jfirst, g_jsecond, g_rpl_seg, g_rpl_ax;
+#define NRP_MAX 64
+unsigned NUM_RP(const struct PDI1* self, int seg, int ax)
+__CPROVER_assigns()
+__CPROVER_ensures((seg == g_rpl_seg && ax == g_rpl_ax) ==> __CPROVER_return_value == (unsigned)g_nrp)
+;
+int RP_FIRST(int j)
+__CPROVER_requires(0 <= j && j < g_nrp)
+__CPROVER_assigns()
+__CPROVER_ensures(__CPROVER_return_value >= 0 && __CPROVER_return_value < (1 << 20)) /* ring numbers (soundness assertion of the list filler) */
+__CPROVER_ensures(j == g_j ==> __CPROVER_return_value == g_jfirst)
+;
+int RP_SECOND(int j)
+__CPROVER_requires(0 <= j && j < g_nrp)
+__CPROVER_assigns()
+__CPROVER_ensures(__CPROVER_return_value >= 0 && __CPROVER_return_value < (1 << 20))
+__CPROVER_ensures(j == g_j ==> __CPROVER_return_value == g_jsecond)
+;
+/* RingNumPairs& ring_pairs = get_all_ring_pairs_for_segment_axial_pos_num(seg, ax): must be the bin's own list */
+#define RPLIST_GET(self, seg, ax) __CPROVER_assert((seg) == g_rpl_seg && (ax) == g_rpl_ax, "the ring-pair list of the bin's own (segment, axial position) is used")
+/* std::vector<DetectionPositionPair<>> dps, projected onto ghost entry g_k */
+unsigned long g_dps_size; int g_dps_resized;
+unsigned long g_k;
+struct DPP g_dp;
+int g_wd_p1_tang, g_wd_p1_axial, g_wd_p2_tang, g_wd_p2_axial, g_wd_timing_pos;
+#define DPS_RESIZE(n)                                                                                                 \
+  do                                                                                                                  \
+    {                                                                                                                 \
+      g_dps_size = (n);                                                                                               \
+      ++g_dps_resized;                                                                                                \
+    }                                                                                                                 \
+  while (0)
+#define DPS_WRITE(idx, field, e)                                                                                      \
+  do                                                                                                                  \
+    {                                                                                                                 \
+      __CPROVER_assert((unsigned long)(idx) < g_dps_size, "dps[] written inside the size it was resized to (std::vector::operator[] is unchecked)"); \
+      if ((unsigned long)(idx) == g_k)                                                                                \
+        {                                                                                                             \
+          g_dp.field = (e);                                                                                           \
+          ++g_wd_##field;                                                                                             \
+        }                                                                                                             \
+    }                                                                                                                 \
+  while (0)
+#define K_is_tof_data(s) ((s)->tof_mash_factor != 0)
+#ifdef C01_M
+#define M_OK(m) ((m) == C01_M)
+#else
+#define M_OK(m) 1
+#endif
+#ifdef C01_R
+#define R_OK(r) ((r) == C01_R)
+#else
+#define R_OK(r) 1
+#endif
+#define CONTRACT_K_get_num_det_pos_pairs_for_bin                                                                     \
+  __CPROVER_requires(__CPROVER_is_fresh(self, sizeof(*self)) && __CPROVER_is_fresh(bin, sizeof(*bin)))                 \
+  __CPROVER_requires(self->view_mashing_factor >= 1 && self->view_mashing_factor <= 64 && self->tof_mash_factor >= 0 && self->tof_mash_factor < 1024 \
+                     && g_nrp >= 0 && g_nrp <= NRP_MAX && bin->segment_num == g_rpl_seg && bin->axial_pos_num == g_rpl_ax) \
+  __CPROVER_assigns()                                                                                                  \
+  __CPROVER_ensures(__CPROVER_return_value == (unsigned)(g_nrp * self->view_mashing_factor * (ignore_non_spatial_dimensions ? 1 : (self->tof_mash_factor == 0 ? 1 : self->tof_mash_factor))))
+
+/* From the property: "the set of detector pairs that a bin reports as contributing to it is exactly the set of pairs
+   assigned to that bin, with the reported count": the list has count = ring pairs x view mashing x TOF mashing entries,
+   every entry is written exactly once, and entry ((i * nrp + j) * T + l) is: the detector pair of uncompressed view
+   view*mash+i at the bin's tangential position, the j-th ring pair of the bin's (segment, axial position), and the l-th
+   unmashed TOF index of the bin's TOF index (tof*f - f/2 + l).  Ghost (g_i,g_j,g_l) stands for every entry.
+   For an EVEN TOF mashing factor the bin's unmashed indices are not symmetric; the function must then report an error
+   rather than write f+1 entries per slot. */
+int g_i, g_l;
+#define T_OF(s, ign) (((ign) || (s)->tof_mash_factor == 0) ? 1 : (s)->tof_mash_factor)
+#define TOF_FACTOR_SUPPORTED(s, ign) ((ign) || (s)->tof_mash_factor == 0 || (s)->tof_mash_factor % 2 == 1)
+#define CONTRACT_K_get_all_det_pos_pairs_for_bin                                                                     \
+  __CPROVER_requires(__CPROVER_is_fresh(self, sizeof(*self)) && __CPROVER_is_fresh(bin, sizeof(*bin)))                 \
+  __CPROVER_requires(PDI1_BASIC(self) && MASH_OK(self) && M_OK(self->view_mashing_factor) && self->view_mashing_factor <= 64 && g_error == 0 \
+                     && self->tof_mash_factor >= 0 && self->tof_mash_factor < 1024 && F_OK(self->tof_mash_factor)         \
+                     && (self->tab1_initialised || !TANG_TOO_LARGE(self)))                                             \
+  __CPROVER_requires(bin->view_num >= 0 && bin->view_num < NN / 2 / self->view_mashing_factor                          \
+                     && bin->tangential_pos_num >= MIN_TP(NN) && bin->tangential_pos_num <= MAX_TP(NN)                 \
+                     && bin->timing_pos_num > -1024 && bin->timing_pos_num < 1024 && (self->tof_mash_factor > 0 || bin->timing_pos_num == 0)) \
+  __CPROVER_requires(g_nrp >= 0 && g_nrp <= NRP_MAX && R_OK(g_nrp) && bin->segment_num == g_rpl_seg && bin->axial_pos_num == g_rpl_ax) \
+  __CPROVER_requires(g_jfirst >= 0 && g_jfirst < (1 << 20) && g_jsecond >= 0 && g_jsecond < (1 << 20))                 \
+  __CPROVER_requires(0 <= g_i && g_i < self->view_mashing_factor && 0 <= g_j && g_j < g_nrp && 0 <= g_l                \
+                     && g_l < T_OF(self, ignore_non_spatial_dimensions)                                                \
+                     && g_k == (unsigned long)((g_i * g_nrp + g_j) * T_OF(self, ignore_non_spatial_dimensions) + g_l)) \
+  __CPROVER_requires(g_dps_resized == 0 && g_wd_p1_tang == 0 && g_wd_p1_axial == 0 && g_wd_p2_tang == 0 && g_wd_p2_axial == 0 && g_wd_timing_pos == 0) \
+  __CPROVER_assigns(g_error, self->tab1_initialised, g_dps_size, g_dps_resized, g_dp, g_wd_p1_tang, g_wd_p1_axial, g_wd_p2_tang, g_wd_p2_axial, g_wd_timing_pos) \
+  __CPROVER_ensures(!TOF_FACTOR_SUPPORTED(self, ignore_non_spatial_dimensions) ==> g_error)                            \
+  __CPROVER_ensures(!g_error ==> (g_dps_resized == 1 && g_dps_size == (unsigned long)(g_nrp * self->view_mashing_factor * T_OF(self, ignore_non_spatial_dimensions)))) \
+  __CPROVER_ensures(!g_error ==> (g_wd_p1_tang == 1 && g_wd_p1_axial == 1 && g_wd_p2_tang == 1 && g_wd_p2_axial == 1 && g_wd_timing_pos == 1)) \
+  __CPROVER_ensures(!g_error ==> (g_dp.p1_tang == (unsigned)SPEC_DET1(bin->view_num * self->view_mashing_factor + g_i, bin->tangential_pos_num, NN) \
+                                  && g_dp.p2_tang == (unsigned)SPEC_DET2(bin->view_num * self->view_mashing_factor + g_i, bin->tangential_pos_num, NN) \
+                                  && g_dp.p1_axial == (unsigned)g_jfirst && g_dp.p2_axial == (unsigned)g_jsecond))     \
+  __CPROVER_ensures(!g_error ==> g_dp.timing_pos == (ignore_non_spatial_dimensions ? 0 : bin->timing_pos_num * self->tof_mash_factor - self->tof_mash_factor / 2 + g_l))
+
+#define TT (max_timing_pos_num - min_timing_pos_num + 1)
+#define UI (uncompressed_view_num - bin->view_num * self->view_mashing_factor)
+#define WD_ALL(c) (g_wd_p1_tang == (c) && g_wd_p1_axial == (c) && g_wd_p2_tang == (c) && g_wd_p2_axial == (c) && g_wd_timing_pos == (c))
+#define DP_SPEC                                                                                                       \
+  (g_dp.p1_tang == (unsigned)SPEC_DET1(bin->view_num * self->view_mashing_factor + g_i, bin->tangential_pos_num, NN)   \
+   && g_dp.p2_tang == (unsigned)SPEC_DET2(bin->view_num * self->view_mashing_factor + g_i, bin->tangential_pos_num, NN) \
+   && g_dp.p1_axial == (unsigned)g_jfirst && g_dp.p2_axial == (unsigned)g_jsecond && g_dp.timing_pos == min_timing_pos_num + g_l)
+#define DP_ASSIGNS g_dp, g_wd_p1_tang, g_wd_p1_axial, g_wd_p2_tang, g_wd_p2_axial, g_wd_timing_pos
+#define LC_K_get_all_det_pos_pairs_for_bin_0                                                                         \
+  __CPROVER_assigns(uncompressed_view_num, current_dp_num, DP_ASSIGNS)                                                 \
+  __CPROVER_loop_invariant(uncompressed_view_num >= bin->view_num * self->view_mashing_factor && uncompressed_view_num <= (bin->view_num + 1) * self->view_mashing_factor) \
+  __CPROVER_loop_invariant(current_dp_num == (unsigned)(UI * g_nrp * TT))                                              \
+  __CPROVER_loop_invariant(WD_ALL(g_i < UI ? 1 : 0) && (g_i < UI ==> DP_SPEC))                                         \
+  __CPROVER_decreases(self->view_mashing_factor - UI)
+#define DONE_J (g_i < UI || (g_i == UI && g_j < rings_iter))
+#define LC_K_get_all_det_pos_pairs_for_bin_1                                                                         \
+  __CPROVER_assigns(rings_iter, current_dp_num, DP_ASSIGNS)                                                            \
+  __CPROVER_loop_invariant(0 <= rings_iter && rings_iter <= g_nrp)                                                     \
+  __CPROVER_loop_invariant(current_dp_num == (unsigned)((UI * g_nrp + rings_iter) * TT))                               \
+  __CPROVER_loop_invariant(WD_ALL(DONE_J ? 1 : 0) && (DONE_J ==> DP_SPEC))                                             \
+  __CPROVER_decreases(g_nrp - rings_iter)
+#define UL (uncompressed_timing_pos_num - min_timing_pos_num)
+#define DONE_L (g_i < UI || (g_i == UI && (g_j < rings_iter || (g_j == rings_iter && g_l < UL))))
+#define LC_K_get_all_det_pos_pairs_for_bin_2                                                                         \
+  __CPROVER_assigns(uncompressed_timing_pos_num, current_dp_num, DP_ASSIGNS)                                           \
+  __CPROVER_loop_invariant(uncompressed_timing_pos_num >= min_timing_pos_num && uncompressed_timing_pos_num <= max_timing_pos_num + 1) \
+  __CPROVER_loop_invariant(current_dp_num == (unsigned)((UI * g_nrp + rings_iter) * TT + UL))                          \
+  __CPROVER_loop_invariant(WD_ALL(DONE_L ? 1 : 0) && (DONE_L ==> DP_SPEC))                                             \
+  __CPROVER_decreases(TT - UL)
+
 #endif
